@@ -256,7 +256,10 @@ def first_missing(v, prefix='', depth=0):
 
 
 def check_member_safe(node, key, value, field, problems, where, tolerate_partial=False,
-                      use_flags=True):
+                      use_flags=True, object_flags=False):
+  """object_flags=True: a pg.Object member whose OWN allow_partial flag is set may
+  be partial inside a holder that is not (the library never aligns the flag of
+  an object with its holder's; the object was created partial-allowed)."""
   spec = field.value
   partial = tolerate_partial or (use_flags and effective_partial(node))
   if is_missing(value):
@@ -283,7 +286,7 @@ def check_member_safe(node, key, value, field, problems, where, tolerate_partial
     if not isinstance(value, spec.cls):
       problems.append(('member-rejected', f'{where}[{key!r}]={safe_repr(value, 120)} is not '
                        f'an instance of {spec.cls.__name__}'))
-    elif not partial:
+    elif not partial and not (object_flags and use_flags and value.allow_partial):
       gap = first_missing(value)
       if gap is not None:
         problems.append(('member-rejected',
@@ -337,7 +340,7 @@ def reached_unconstrained(root, keys):
   return False
 
 
-def schema_ok_nodes(forest, counters=None, tolerate=None, use_flags=True):
+def schema_ok_nodes(forest, counters=None, tolerate=None, use_flags=True, object_flags=False):
   """schema_ok with a per-node tolerance: tolerate(ridx, keys, node) -> bool says
   whether `node` was explicitly made partial (beyond its allow_partial flags;
   use_flags=False: the allow_partial flags of the node and its ancestors are
@@ -359,7 +362,8 @@ def schema_ok_nodes(forest, counters=None, tolerate=None, use_flags=True):
       for k, v in items:
         if counters is not None:
           counters['schema_ok_members'] += 1
-        check_member_safe(node, k, v, lspec.element, problems, where, tol, use_flags)
+        check_member_safe(node, k, v, lspec.element, problems, where, tol, use_flags,
+                          object_flags)
       continue
     if schema is None:
       continue
@@ -376,7 +380,7 @@ def schema_ok_nodes(forest, counters=None, tolerate=None, use_flags=True):
       if field is None:
         problems.append(('undeclared-key', f'{where}: key {k!r} is not declared'))
         continue
-      check_member_safe(node, k, v, field, problems, where, tol, use_flags)
+      check_member_safe(node, k, v, field, problems, where, tol, use_flags, object_flags)
     for kspec, field in schema.fields.items():
       if isinstance(kspec, T.ConstStrKey) and kspec.text not in present:
         if not (tol or (use_flags and effective_partial(node))) and not field.value.has_default:
